@@ -136,6 +136,9 @@ func runC15(c *eng.Ctx) {
 		c.Check(okInit, "closed-until-prepared", nil, ns, "a new stream writer rejects bytes until a key is prepared", "")
 	})
 
+	// ---- 2b. the file lists a snapshot reads are not edited through a newer version (rule shared with C02) ----------------------------------
+	c.Rule("PROV", "kv/version.version.levels{every version owns its level objects}", func() { versionOwnsLevels(c) })
+
 	// ---- 3. lookup -----------------------------------------------------------------------------------------------------------------
 	c.Rule("ORDER", mrT+".Get{contains<rank}", func() {
 		f := c.Fn(mrT + ".Get")
